@@ -63,7 +63,16 @@ func corpus(repo string) []source {
 	for _, k := range everyKey {
 		out = append(out, source{k.Name, []byte(k.Src)})
 	}
-	for _, d := range []string{"testdata/ok", "testdata/examples"} {
+	dirs := []string{"testdata/ok", "testdata/examples", ".github/workflows"}
+	// workflows of the test projects (clean ones only are used)
+	more, _ := filepath.Glob(filepath.Join(repo, "testdata/projects/*/workflows"))
+	more2, _ := filepath.Glob(filepath.Join(repo, "testdata/projects/*/.github/workflows"))
+	for _, m := range append(more, more2...) {
+		if r, err := filepath.Rel(repo, m); err == nil {
+			dirs = append(dirs, r)
+		}
+	}
+	for _, d := range dirs {
 		fs, _ := filepath.Glob(filepath.Join(repo, d, "*.yaml"))
 		fs2, _ := filepath.Glob(filepath.Join(repo, d, "*.yml"))
 		fs = append(fs, fs2...)
@@ -115,7 +124,7 @@ func main() {
 	hx.Must(err)
 	defer srcsOut.Close()
 
-	budget := 2500 // positions in the quick tier (every-key workflows always complete)
+	budget := 6000 // positions in the quick tier (every-key workflows always complete)
 	if *tier == "thorough" {
 		budget = 1 << 30
 	}
